@@ -242,32 +242,32 @@ Section RT.
     - constructor; [cbn [ftext Fw]; apply (plain_no 10 _ eq_refl Hpre)|exact Fs].
   Qed.
 
-  Lemma rt_tick c0 pre code post : wf_b (FTick c0 pre code post) = true -> RT (FTick c0 pre code post).
+  Lemma rt_tick c0 pre n code post : wf_b (FTick c0 pre n code post) = true -> RT (FTick c0 pre n code post).
   Proof.
-    intros Hw. destruct (tick_wf _ _ _ _ Hw) as (Hok & _). destruct (tick_parts _ _ _ _ Hok) as (Hpre & Hpost & Hcode).
+    intros Hw. destruct (tick_wf _ _ _ _ _ Hw) as (Hok & _). destruct (tick_parts _ _ _ _ Hok) as (Hpre & Hpost & Hcode).
     assert (C10 : mem 10 code = false) by (apply code_text_no; [reflexivity|exact Hcode]).
     unfold RT, md_lines. cbn [tok_of block_lines spell map bare repeat app]. unfold span_to_lines. cbn [fragments_to_lines].
     rewrite code_of_eq.
     pose proof (code_pad_ok code) as PK. pose proof (code_content_no 10 code C10) as CN.
     set (cc := code_content code) in *. clearbody cc.
     assert (G : forall pad : str, mem 10 pad = false -> pad ++ cc ++ pad = code ->
-                plain_from [] (flat_map frags (RawText (c0 :: pre) :: InlineCode (mkCode [96] pad cc) :: EmphSentence.raw_if post)) = [c0 :: tick_body pre code post]).
+                plain_from [] (flat_map frags (RawText (c0 :: pre) :: InlineCode (mkCode (ticks n) pad cc) :: EmphSentence.raw_if post)) = [c0 :: tick_body pre n code post]).
     { intros pad P10 PE.
-      assert (EF : flat_map frags (RawText (c0 :: pre) :: InlineCode (mkCode [96] pad cc) :: EmphSentence.raw_if post) =
-                  [Fw (c0 :: pre); F ([96] ++ pad); Fw cc; F (pad ++ [96])] ++ match post with [] => [] | _ => [Fw post] end).
+      assert (EF : flat_map frags (RawText (c0 :: pre) :: InlineCode (mkCode (ticks n) pad cc) :: EmphSentence.raw_if post) =
+                  [Fw (c0 :: pre); F (ticks n ++ pad); Fw cc; F (pad ++ ticks n)] ++ match post with [] => [] | _ => [Fw post] end).
       { destruct post; reflexivity. }
       rewrite EF. rewrite plain_from_flat.
-      - assert (Ec : concat (map ftext ([Fw (c0 :: pre); F ([96] ++ pad); Fw cc; F (pad ++ [96])] ++ match post with [] => [] | _ => [Fw post] end)) =
-                     c0 :: tick_body pre code post).
-        { rewrite map_app, concat_app. cbn [map concat ftext Fw F]. unfold tick_body. rewrite <- PE.
+      - assert (Ec : concat (map ftext ([Fw (c0 :: pre); F (ticks n ++ pad); Fw cc; F (pad ++ ticks n)] ++ match post with [] => [] | _ => [Fw post] end)) =
+                     c0 :: tick_body pre n code post).
+        { rewrite map_app, concat_app. cbn [map concat ftext Fw F]. unfold tick_body, ticks. rewrite <- PE.
           destruct post; cbn [map concat ftext Fw]; rewrite ?app_nil_r; repeat (rewrite <- ?app_assoc; cbn [app]); reflexivity. }
         cbn [app] in Ec |- *. rewrite Ec. reflexivity.
       - apply Forall_app. split.
         + repeat constructor; cbn [ftext Fw F].
           * apply (plain_no 10 _ eq_refl Hpre).
-          * unfold mem in *. cbn [existsb app Z.eqb Pos.eqb orb]. exact P10.
+          * unfold mem in *. rewrite existsb_app, P10, orb_false_r. apply (mem_repeat 10 96 (S n)). lia.
           * exact CN.
-          * unfold mem in *. rewrite existsb_app, P10. reflexivity.
+          * unfold mem in *. rewrite existsb_app, P10. cbn [orb]. apply (mem_repeat 10 96 (S n)). lia.
         + destruct post; [constructor|]. repeat constructor. cbn [ftext Fw]. apply (plain_no 10 _ eq_refl Hpost). }
     destruct (code_padded code); apply G; try reflexivity; exact PK.
   Qed.
@@ -378,8 +378,8 @@ Section RT.
   Proof.
     induction f as [|f IH].
     - intros t Hd Hw.
-      destruct t as [c body more|ch n content|ts|mk pad ts|mk pad ts bl next|lv hc hb|rc rn|e0 epre ech edbl ew epost|l0 lpre lw ldest lpost|s0 st0' sgs|k0 kpre kcode kpost|b0 bbody bk bmore|o0 opre ox opost]; [apply rt_para; exact Hw|apply rt_fence; assumption|cbn [depth] in Hd; lia|cbn [depth] in Hd; lia|cbn [depth] in Hd; lia|apply rt_head; exact Hw|apply rt_rule|apply rt_em; exact Hw|apply rt_link; exact Hw|apply rt_sent; exact Hw|apply rt_tick; exact Hw|apply rt_brk; exact Hw|apply rt_one; exact Hw].
-    - intros t. induction t as [c body more|ch n content|ts|mk pad ts|mk pad ts bl next IHn|lv hc hb|rc rn|e0 epre ech edbl ew epost|l0 lpre lw ldest lpost|s0 st0' sgs|k0 kpre kcode kpost|b0 bbody bk bmore|o0 opre ox opost]; intros Hd Hw;
+      destruct t as [c body more|ch n content|ts|mk pad ts|mk pad ts bl next|lv hc hb|rc rn|e0 epre ech edbl ew epost|l0 lpre lw ldest lpost|s0 st0' sgs|k0 kpre kn kcode kpost|b0 bbody bk bmore|o0 opre ox opost]; [apply rt_para; exact Hw|apply rt_fence; assumption|cbn [depth] in Hd; lia|cbn [depth] in Hd; lia|cbn [depth] in Hd; lia|apply rt_head; exact Hw|apply rt_rule|apply rt_em; exact Hw|apply rt_link; exact Hw|apply rt_sent; exact Hw|apply rt_tick; exact Hw|apply rt_brk; exact Hw|apply rt_one; exact Hw].
+    - intros t. induction t as [c body more|ch n content|ts|mk pad ts|mk pad ts bl next IHn|lv hc hb|rc rn|e0 epre ech edbl ew epost|l0 lpre lw ldest lpost|s0 st0' sgs|k0 kpre kn kcode kpost|b0 bbody bk bmore|o0 opre ox opost]; intros Hd Hw;
         [apply rt_para; exact Hw|apply rt_fence; assumption| | | |apply rt_head; exact Hw|apply rt_rule|apply rt_em; exact Hw|apply rt_link; exact Hw|apply rt_sent; exact Hw|apply rt_tick; exact Hw|apply rt_brk; exact Hw|apply rt_one; exact Hw].
       + (* quote *)
         cbn [wf_b] in Hw. repeat rewrite andb_true_iff in Hw. destruct Hw as [[Hs Hall] Hg].
